@@ -5,7 +5,7 @@ per case of its base evaluator's result (Ok(Value::V(payload)) for each of the 6
 return value must be the projection its *name* promises.  String forms share the pipeline
 tokenize -> tokens_to_operator_tree -> Node::eval_with_context[_mut]; context-free forms use a fresh HashMapContext."""
 import re
-from absint import Interp, ADT, SYM, OK, ERR, UNK, fmt, Budget
+from absint import Interp, ADT, SYM, OK, ERR, UNK, fmt, Budget, P_OK, P_ERR, expand_results
 from mirlib import path_endswith
 
 EXPLANATION = ('wrapper matrix: each of the 48 typed/untyped entry points is abstractly interpreted over its MIR once per case of the base '
@@ -175,15 +175,16 @@ def pipeline(ctx, prog, f, mut):
     nargs = 1 if mut is None else 2
     args = [SYM('string'), SYM('context')][:nargs]
     paths = it.paths(f, args)
-    got = sorted({fmt(p[0]) for p in paths})
+    got = sorted({fmt(r) for r in expand_results([p[0] for p in paths])})
     tok = ('app', 'token::tokenize', (SYM('string'),))
-    tree = ('app', 'tree::tokens_to_operator_tree', (('proj', tok, ('ok',)),))
-    want = [ERR(('proj', tok, ('err',)))]
+    tree = ('app', 'tree::tokens_to_operator_tree', (P_OK(tok),))
+    want = [ERR(P_ERR(tok))]
     if mut is None:
         want.append(tree)
     else:
-        want.append(ERR(('proj', tree, ('err',))))
-        want.append(('app', 'tree::Node::eval_with_context' + ('_mut' if mut else ''), (('proj', tree, ('ok',)), SYM('context'))))
+        want.append(ERR(P_ERR(tree)))
+        want.append(('app', 'tree::Node::eval_with_context' + ('_mut' if mut else ''), (P_OK(tree), SYM('context'))))
+    want = expand_results(want)
     wantf = sorted({fmt(w) for w in want})
     if got == wantf:
         ctx.ok('pipeline', inst, 'path set = %s' % wantf, span=f.span)
